@@ -214,6 +214,12 @@ def main():
         for k, v in rec['max_err'].items():
             d['max_err'][k] = max(d['max_err'].get(k, 0.0), v)
         d['rejected'] += rec['rejected']
+        for k, v in rec.get('harness_errors', {}).items():
+            d.setdefault('harness_errors', {})
+            d['harness_errors'][k] = d['harness_errors'].get(k, 0) + v
+        for ex_ in rec.get('harness_examples', []):
+            if len(d.setdefault('harness_examples', [])) < 2:
+                d['harness_examples'].append(ex_)
         d['wall_s'] = max(d['wall_s'], r['wall'])
         if len(d['samples']) < 3:
             d['samples'] += rec['samples'][:3 - len(d['samples'])]
@@ -250,6 +256,13 @@ def main():
         else:
             out_lines.append('NOTE: listed finding %s no longer reproduces on this tree' % k['id'])
 
+    # exceptions raised by the harness itself (oracle / generator), per case: tolerated when rare, fatal when systematic
+    for name, d in per_rel.items():
+        nerr = sum(d.get('harness_errors', {}).values())
+        if nerr:
+            out_lines.append('NOTE: %s: %d case(s) skipped because the harness itself raised: %s' % (name, nerr, d['harness_errors']))
+            if nerr > max(3, 0.05 * max(d['evaluations'] + nerr, 1)):
+                errors.append('%s: %d harness exceptions (%s); first: %s' % (name, nerr, d['harness_errors'], d.get('harness_examples', [])[:1]))
     violations = []
     for relname, fail in failures:
         k = core.matches_known(prop, relname, fail.get('sig', {}), known)
